@@ -86,3 +86,253 @@ def gen_ldm_subs():
     body += "def noneAccepted : List Bool := [" + ", ".join("true" if b else "false" for b in none_ok) + "]\n"
     body += "end Generated.LdmSubs\n"
     write_if_changed("LdmSubs.lean", body)
+
+
+# ---------------------------------------------------------------------------------------------------------------------
+# Generated/LdmSections.lean (C13, C14): lock-section facts of the in-memory back-end and of the notification path
+# (round 4).  Pure `ast` passes over the source text - nothing is imported or executed.
+#
+# * `dbUnits : List (String × List (List String))` - for every method of DictionaryDataBase that touches the store
+#   (`self.database`, `self._next_id`, directly or by calling another method of the class): its UNITS in source order.
+#   A unit is one outermost `with self._lock:` section (its accesses, e.g. ["R database", "W database"], a call of an own
+#   method is "call <m>"), or - should it exist - one access made outside every section (["unlocked R database"]).
+#   A method that is ONE atomic step on the store has exactly one unit and no "unlocked" token;
+#   `FlexModel.Ldm.QueryConc` compiles every operation to as many atomic blocks as its method has units.
+#   Renaming locals, reordering statements inside the section, early returns inside the section do not change the fact;
+#   splitting a section, or moving an access out of it, does.
+# * `attendSteps`, `notifySteps : List String` - the statements of LDMService.attend_subscription and
+#   LDMService.process_notifications in source order, classified: "search" (self.search_data), "return?" (a plain early
+#   return), "order" (self.order_search_results), "lock" … "unlock" (a `with self._lock:` section), "stored?" (the test
+#   `subscription not in self.subscriptions` followed by return), "notify" (self.process_notifications), "last" (reading
+#   the last-checked record), "arm" (creating a missing record), "interval?" (the interval test with return), "mark"
+#   (storing the notification time), "callback" (invoking the consumer's callback); statements that only bind locals
+#   leave no trace; anything else is "other".  `FlexModel.Ldm.SubsRace.guardsOf` reads the positions of "stored?" from them.
+
+def _self_attr_name(node):
+    return node.attr if (isinstance(node, ast.Attribute) and isinstance(node.value, ast.Name) and node.value.id == "self") else None
+
+
+def _class_methods(rel, cname):
+    tree = ast.parse(gen_lean.src(rel))
+    for n in tree.body:
+        if isinstance(n, ast.ClassDef) and n.name == cname:
+            return {m.name: m for m in n.body if isinstance(m, (ast.FunctionDef, ast.AsyncFunctionDef))}
+    raise AssertionError(f"class {cname} not found in {rel}")
+
+
+DB_ATTRS = ("database", "_next_id")
+DB_MUTATORS = {"pop", "popitem", "clear", "update", "setdefault", "append", "remove", "insert", "extend", "__setitem__",
+               "__delitem__"}
+
+
+class _DbAccesses(ast.NodeVisitor):
+    """accesses of self.database / self._next_id and calls of own methods, with the enclosing-lock flag"""
+
+    def __init__(self, own_touching):
+        self.own, self.units, self.cur = own_touching, [], None
+
+    def _emit(self, tok):
+        if self.cur is not None:
+            if tok not in self.cur:
+                self.cur.append(tok)
+        else:
+            self.units.append(["unlocked " + tok])
+
+    def visit_With(self, node):
+        is_lock = any(_self_attr_name(it.context_expr) == "_lock" for it in node.items)
+        if is_lock and self.cur is None:
+            self.cur = []
+            for st in node.body:
+                self.visit(st)
+            self.units.append(self.cur)
+            self.cur = None
+        else:
+            for it in node.items:
+                self.visit(it.context_expr)
+            for st in node.body:
+                self.visit(st)
+
+    def _target(self, t):
+        # a store into / deletion from / rebinding of the attribute
+        base = t
+        while isinstance(base, ast.Subscript):
+            base = base.value
+        a = _self_attr_name(base)
+        if a in DB_ATTRS:
+            self._emit(f"W {a}")
+            if isinstance(t, ast.Subscript):
+                self.visit(t.slice)
+            return True
+        return False
+
+    def visit_Assign(self, node):
+        self.visit(node.value)
+        for t in node.targets:
+            if not self._target(t):
+                self.visit(t)
+
+    def visit_AugAssign(self, node):
+        self.visit(node.value)
+        base = node.target
+        while isinstance(base, ast.Subscript):
+            base = base.value
+        a = _self_attr_name(base)
+        if a in DB_ATTRS:
+            self._emit(f"R {a}")
+            self._emit(f"W {a}")
+        else:
+            self.visit(node.target)
+
+    def visit_Delete(self, node):
+        for t in node.targets:
+            if not self._target(t):
+                self.visit(t)
+
+    def visit_Call(self, node):
+        f = node.func
+        if isinstance(f, ast.Attribute):
+            a = _self_attr_name(f.value)
+            if a in DB_ATTRS:                              # self.database.<method>(…)
+                self._emit(f"{'W' if f.attr in DB_MUTATORS else 'R'} {a}")
+                for x in list(node.args) + [k.value for k in node.keywords]:
+                    self.visit(x)
+                return
+            m = _self_attr_name(f)
+            if m is not None and m in self.own:            # self.<own method touching the store>(…)
+                self._emit(f"call {m}")
+                for x in list(node.args) + [k.value for k in node.keywords]:
+                    self.visit(x)
+                return
+        self.generic_visit(node)
+
+    def visit_Attribute(self, node):
+        a = _self_attr_name(node)
+        if a in DB_ATTRS:
+            self._emit(f"R {a}")
+        else:
+            self.generic_visit(node)
+
+
+def db_units():
+    methods = _class_methods("facilities/local_dynamic_map/dictionary_database.py", "DictionaryDataBase")
+    # methods that touch the store directly, then those calling them (fixed point)
+    touching = set()
+    for name, m in methods.items():
+        if any(_self_attr_name(n) in DB_ATTRS for n in ast.walk(m)):
+            touching.add(name)
+    changed = True
+    while changed:
+        changed = False
+        for name, m in methods.items():
+            if name not in touching and any(isinstance(n, ast.Call) and _self_attr_name(n.func) in touching for n in ast.walk(m)):
+                touching.add(name)
+                changed = True
+    out = []
+    for name in sorted(touching):
+        if name == "__init__":
+            continue
+        v = _DbAccesses(touching)
+        for st in methods[name].body:
+            v.visit(st)
+        out.append((name, v.units))
+    return out
+
+
+def _is_stored_test(st):
+    """`if subscription not in self.subscriptions: return`"""
+    if not (isinstance(st, ast.If) and not st.orelse and len(st.body) == 1 and isinstance(st.body[0], ast.Return)):
+        return False
+    t = st.test
+    return (isinstance(t, ast.Compare) and len(t.ops) == 1 and isinstance(t.ops[0], ast.NotIn)
+            and _self_attr_name(t.comparators[0]) == "subscriptions")
+
+
+def _calls(node, name):
+    return any(isinstance(n, ast.Call) and _self_attr_name(n.func) == name for n in ast.walk(node))
+
+
+def _mentions(node, attr):
+    return any(_self_attr_name(n) == attr for n in ast.walk(node))
+
+
+def _classify(st, out):
+    if isinstance(st, ast.Expr) and isinstance(st.value, ast.Constant):
+        return                                                       # docstring
+    if isinstance(st, ast.With) and any(_self_attr_name(it.context_expr) == "_lock" for it in st.items):
+        out.append("lock")
+        for x in st.body:
+            _classify(x, out)
+        out.append("unlock")
+        return
+    if _is_stored_test(st):
+        out.append("stored?")
+        return
+    if any(isinstance(n, ast.Call) and isinstance(n.func, ast.Attribute) and n.func.attr == "callback" for n in ast.walk(st)):
+        out.append("callback")
+        return
+    if _calls(st, "process_notifications"):
+        out.append("notify")
+        return
+    if _calls(st, "search_data"):
+        out.append("search")
+        return
+    if _calls(st, "order_search_results"):
+        out.append("order")
+        return
+    if _mentions(st, "last_checked_subscriptions_time"):
+        if isinstance(st, ast.Assign) and any(_mentions(t, "last_checked_subscriptions_time") for t in st.targets):
+            out.append("mark")
+        elif isinstance(st, ast.If):
+            out.append("arm")
+        else:
+            out.append("last")
+        return
+    if _mentions(st, "subscriptions"):
+        out.append("other")
+        return
+    if isinstance(st, ast.If) and not st.orelse and all(isinstance(x, ast.Return) for x in st.body):
+        names = {n.id for n in ast.walk(st.test) if isinstance(n, ast.Name)}
+        out.append("interval?" if ("notify_time" in names or "last_checked" in names) else "return?")
+        return
+    if isinstance(st, (ast.Assign, ast.AnnAssign)) and not any(
+            isinstance(n, ast.Call) and _self_attr_name(n.func) is not None for n in ast.walk(st)):
+        return                                                       # binds a local
+    out.append("other")
+
+
+def notification_steps():
+    methods = _class_methods("facilities/local_dynamic_map/ldm_service.py", "LDMService")
+    res = []
+    for name in ("attend_subscription", "process_notifications"):
+        if name not in methods:
+            raise AssertionError(f"LDMService.{name} not found")
+        out = []
+        for st in methods[name].body:
+            _classify(st, out)
+        res.append(out)
+    return res
+
+
+def _strs(xs):
+    return "[" + ", ".join(_lean_str(x) for x in xs) + "]"
+
+
+@gen_lean.register(props=["C13", "C14"])
+def gen_ldm_sections():
+    units = db_units()
+    attend, notify = notification_steps()
+    body = "namespace Generated.LdmSections\n"
+    body += "def dbUnits : List (String × List (List String)) := [" + ", ".join(
+        f"({_lean_str(m)}, [" + ", ".join(_strs(u) for u in us) + "])" for m, us in units) + "]\n"
+    body += f"def attendSteps : List String := {_strs(attend)}\n"
+    body += f"def notifySteps : List String := {_strs(notify)}\n"
+    body += "end Generated.LdmSections\n"
+    write_if_changed("LdmSections.lean", body)
+
+
+if __name__ == "__main__":
+    for m, us in db_units():
+        print(m, us)
+    a, n = notification_steps()
+    print("attend", a)
+    print("notify", n)
